@@ -203,7 +203,7 @@ def legals_body(ctx, key, piece, R):
     pieces = ('pieces', ('field', B, 'pieces'), piece)
     pinned = ('field', B, 'pinned')
     loops = for_loops(s)
-    pushes = [c for c in s.calls if c['callee'] == PUSH]
+    pushes = [c for c in expanded_calls(ctx, s, lambda c_: c_['callee'] == PUSH) if c['callee'] is not None]
     res = dict(s=s, loops=[], pushes=pushes)
     unp = mk('&', [pieces, own, ('bbnot', pinned)])
     pin = mk('&', [pieces, own, pinned])
@@ -480,7 +480,7 @@ def king(ctx):
     w = where(body)
     B, STM, own, ksq = board_ctx(2)
     LKM = 'movegen::piece_type::KingType::legal_king_move'
-    pushes = [c for c in s.calls if c['callee'] == PUSH]
+    pushes = [c for c in expanded_calls(ctx, s, lambda c_: c_['callee'] == PUSH) if c['callee'] is not None]
     if len(pushes) != 1:
         ctx.violation(R, key + ':push-count', 'king legals pushes %d entries (expected one)' % len(pushes), w)
         return
@@ -559,7 +559,10 @@ def king(ctx):
     sm = ctx.an().summary('board::Board::my_castle_rights')
     if sm is not None:
         r = norm(sm.ret)
-        if match(call('board::Board::castle_rights', ('param', 1), call('board::Board::side_to_move', ('param', 1))), r) is not None:
+        # accessor or field, call or inlined: compare in fully inlined form
+        ri = ninl(ctx, sm.ret)
+        want_i = ('index', ('field', ('mem', ('p', 1)), 'castle_rights'), ('cast', ('discr', ('field', ('mem', ('p', 1)), 'side_to_move')), 'usize'))
+        if match(call('board::Board::castle_rights', ('param', 1), call('board::Board::side_to_move', ('param', 1))), r) is not None or ri == want_i:
             ctx.ok(R, 'my_castle_rights = castle_rights(side to move)', where(sm.body))
         else:
             ctx.violation(R, 'board::Board::my_castle_rights', 'my_castle_rights is ' + sh(r, 160), where(sm.body))
